@@ -6,7 +6,7 @@ PY = "/venv/bin/python"
 
 # id: (technique, level text, level note, design_ref)
 CHECKS = {
- "C07": ("bounded exhaustive exploration of the real reader over all byte strings / token sequences up to a length bound x reader configurations; invariant oracle on every execution",
+ "C07": ("bounded exhaustive exploration of the real reader over all byte strings / token sequences up to a length bound x reader configurations; plus every program of <= 3 consumption operations (read / next / for) and streams of frames with equal header and checksum bytes; invariant oracle on every execution",
          "No execution of UBXReader.read() over any byte string of the stated alphabet and length bound or token sequence, under any of the enumerated reader configurations - and under every single short read of the stream (one deviation) - returns a raw item that is not an ordered, non-overlapping, preamble-led slice of the input or reports end-of-stream with unread data. Exhaustive within the bound, not a proof beyond it.",
          "io.BytesIO as the stream; pynmeagps.NMEA_HDR as the list of NMEA preambles; strings longer than the bound and bytes outside the 8-symbol alphabet are reached only through token sequences.",
          "DESIGN.md §5 C07"),
@@ -14,7 +14,7 @@ CHECKS = {
          "For every sequence of up to the stated number of frame/noise tokens (incl. frames at the length boundaries of each protocol's framing, rejected frames that contain foreign frames, NMEA input the parser answers with None) and every enumerated configuration, ITERATING the reader yields exactly the frames their protocol parser accepts, in order, with the parser's result, then ends with the stream consumed.",
          "pynmeagps/pyrtcm parsers decide acceptance of NMEA/RTCM tokens; token alphabet is fixed (14 frames, 5 noise); depth bound.",
          "DESIGN.md §5 C06"),
- "C09": ("crash-point enumeration: every cut position of every byte string / token sequence up to a bound, executed on the real reader; prefix oracle against the uncut run",
+ "C09": ("crash-point enumeration: every cut position of every byte string / token sequence up to a bound, executed on the real reader; runs of > 1,000 rejected items at sparse cuts; prefix oracle against the uncut run (which itself must end without raising)",
          "No cut of any enumerated stream - read from BytesIO, from a pipe-like non-seekable stream or from a minimal read/readline object - yields an item sequence that is not a prefix of the uncut output, raises, leaves bytes unread, or (for clean sequences) loses a frame that ends before the cut.",
          "BytesIO(S[:k]) models the cut stream; items compared by type/str/serialize.",
          "DESIGN.md §5 C09"),
@@ -42,7 +42,7 @@ CHECKS = {
          "No enumerated input makes parse raise anything but a UBX* error or return a message that cannot be inspected; no enumerated stream/configuration makes iteration exceed the horizon, raise under IGNORE/LOG, or raise a non-protocol exception under RAISE.",
          "60 s watchdog for a single call; horizon 4*len+16 stream calls; inputs outside the enumerated alphabets/lengths not covered.",
          "DESIGN.md §5 C08"),
- "C05": ("fault enumeration: every single-byte substitution/insertion/deletion/truncation, bursts and (short frames) double substitutions over a family of valid frames incl. all 65,536 zero-length frames, plus all byte strings over a header alphabet; oracle = reference well-formedness predicate",
+ "C05": ("fault enumeration: every single-byte substitution/insertion/deletion/truncation, bursts and (short frames) double substitutions over a family of valid frames incl. all 65,536 zero-length frames, plus all byte strings over a header alphabet; uniform payloads of every length with all single-byte checksum corruptions; oracle = reference well-formedness predicate (VALNONE clause: same attributes, payload and serialization as the intact frame)",
          "No enumerated corruption of any family frame and no enumerated byte string is accepted by parse(validate=VALCKSUM) unless it is itself a well-formed frame; every malformed one is refused with UBXParseError; with VALNONE a corrupted checksum does not change identity or attributes.",
          "reference framing and Fletcher in mc/refmodel/core.py; substitution values limited to 9 boundary bytes for long frames (quick: also for most zero-length frames).",
          "DESIGN.md §5 C05"),
@@ -50,7 +50,7 @@ CHECKS = {
          "Every shipped definition obeys the grammar (types, flag widths, group sizes by earlier top-level integer, one trailing variable-by-size group, unique keyword-addressable names, no collision with UBXMessage attributes) and a nominal instance of every routed (message, mode) can be built and parsed with one attribute per named field.",
          "grammar as written in README; entries no API route can reach are grammar-checked only; known findings: FOO-BAR test fixture, parsebitfield=0 with flag-sized groups.",
          "DESIGN.md §5 C16"),
- "C17": ("exhaustive enumeration of every SET/POLL definition x conforming payload shapes x generation routes on the real code; differential oracle true-mode parse vs SETPOLL parse",
+ "C17": ("exhaustive enumeration of every SET/POLL definition x conforming payload shapes x generation routes on the real code; and, per class/ID defined in both modes, SET-then-POLL / POLL-then-SET histories in freshly forked processes; differential oracle true-mode parse vs SETPOLL parse",
          "For every SET/POLL definition and every enumerated conforming payload the library can generate, parsing with SETPOLL returns the same mode, identity, attributes and bytes as parsing with the true mode (11 listed known findings: empty SET payloads, AID-ALM/AOP/EPH polls with members).",
          "conformance decided by the reference layout; payload contents limited to two fills; counted groups up to 3 members, variable-by-size up to 16.",
          "DESIGN.md §5 C17"),
@@ -70,7 +70,7 @@ CHECKS = {
          "Every enumerated hostile value is either refused with UBXMessageError/UBXTypeError or encoded exactly as the reference codec prescribes with all other fields untouched and the payload length implied by the definition; no other exception type escapes (known finding: wrong-length values for C fields).",
          "reference codec decides whether a value fits; bool counts as int; scaled fields may differ by one unit; large legitimate group counts (>1000) skipped for cost.",
          "DESIGN.md §5 C15"),
- "C04": ("bounded exhaustive exploration of every construction route (keywords, payload, config helpers, no-keyword) x addressing form (names, ints, bytes) over every routed definition / named class-ID; oracle = independent framing + Fletcher + acceptance by parse",
+ "C04": ("bounded exhaustive exploration of every construction route (keywords, payload, config helpers, no-keyword) x addressing form (names, ints, bytes) over every routed definition / named class-ID; plus all schedules (<= 1 preemption, cooperative line-event scheduler) of 15 pairs of constructions as two real threads; oracle = independent framing + Fletcher + acceptance by parse",
          "Every message built in the enumerated spaces serializes to b5 62 + class + ID + LE length equal to the actual payload length + payload + reference Fletcher checksum, is accepted by parse in the same mode with identical re-serialization, and the three addressing forms give identical frames.",
          "independent framing in mc/refmodel/core.py; attribute values limited to boundary values; payload contents to fill patterns.",
          "DESIGN.md §5 C04"),
